@@ -97,7 +97,7 @@ Proof. rewrite fv_script_app by discriminate. reflexivity. Qed.
 Theorem fv_enc fx c ke m : fv_script (enc ke m) = has_free_verify (ext_of_gen fx c m).
 Proof.
   induction m using ms_ind_ext; cbn [enc ext_of_gen]; unfold hash_frag; try reflexivity.
-  - (* pk_k *) unfold ext_pk_k. destruct (key_sig_bytes fx (xc_schnorr c) (xc_unc c k)). reflexivity.
+  - (* pk_k *) unfold ext_pk_k. destruct (key_sig_bytes (fx_pkk fx) (xc_schnorr c) (xc_unc c k)). reflexivity.
   - (* pk_h *) unfold ext_pk_h. destruct (key_sig_bytes fx (xc_schnorr c) (xc_unc c k)). reflexivity.
   - (* raw_pk_h *) unfold ext_pk_h. destruct (key_sig_bytes fx (xc_schnorr c) false). reflexivity.
   - (* after *) rewrite fv_script_cons2. reflexivity.
@@ -142,7 +142,7 @@ Proof.
     rewrite ?count_ops_app, ?count_ops_cons, ?count_if; cbn [count_ops count_instr]; rewrite ?count_push_int.
   - reflexivity.
   - reflexivity.
-  - unfold ext_pk_k. destruct (key_sig_bytes fx (xc_schnorr c) (xc_unc c k)). reflexivity.
+  - unfold ext_pk_k. destruct (key_sig_bytes (fx_pkk fx) (xc_schnorr c) (xc_unc c k)). reflexivity.
   - unfold ext_pk_h. destruct (key_sig_bytes fx (xc_schnorr c) (xc_unc c k)). reflexivity.
   - unfold ext_pk_h. destruct (key_sig_bytes fx (xc_schnorr c) false). reflexivity.
   - reflexivity.
@@ -192,12 +192,12 @@ Qed.
 (* ------------------------------------------------------------------ pk_cost against script_size
    The two figures are computed by different code (ExtData rules vs Miniscript::script_size). They
    agree on the class [size_wf]: Ctx::pk_len equals the key-byte constant of the pk_k rule
-   (false for uncompressed keys unless repaired: finding repair:unc), multi with k, n < 128,
+   (true for the harness contexts since /repo 4c5160f8), multi with k, n < 128,
    multi_a with 1 <= n <= 16 (beyond: the rule adds multi's cost of pushing n, which multi_a does
    not push). With script_size = encoded length (C04: script_size_ok) this gives pk_cost = length. *)
 Fixpoint size_wf (fx : fixes) (c : xctx) (m : ms) : bool :=
   match m with
-  | MPkK k => xc_pklen c k =? fst (key_sig_bytes fx (xc_schnorr c) (xc_unc c k))
+  | MPkK k => xc_pklen c k =? fst (key_sig_bytes (fx_pkk fx) (xc_schnorr c) (xc_unc c k))
   | MMulti k ks | MSortedMulti k ks =>
     (k <? 128) && (N.of_nat (length ks) <? 128)
     && forallb (fun key => xc_pklen c key =? (if xc_unc c key then 66 else 34)) ks
@@ -248,7 +248,7 @@ Proof.
   induction m using ms_ind_ext; cbn [size_wf ext_of_gen script_size_gen]; intros Hw.
   - reflexivity.
   - reflexivity.
-  - apply N.eqb_eq in Hw. rewrite Hw. unfold ext_pk_k. destruct (key_sig_bytes fx (xc_schnorr c) (xc_unc c k)). reflexivity.
+  - apply N.eqb_eq in Hw. rewrite Hw. unfold ext_pk_k. destruct (key_sig_bytes (fx_pkk fx) (xc_schnorr c) (xc_unc c k)). reflexivity.
   - unfold ext_pk_h. destruct (key_sig_bytes fx (xc_schnorr c) (xc_unc c k)). reflexivity.
   - unfold ext_pk_h. destruct (key_sig_bytes fx (xc_schnorr c) false). reflexivity.
   - reflexivity.
@@ -296,7 +296,8 @@ Proof.
     unfold ext_multi_a. cbn [pk_cost]. rewrite (num_cost_multi_a _ _ Hk1 Hk3), (sum_pklen_33 c ks Hk4). lia.
 Qed.
 
-(* the rule's constant for an uncompressed key is one short of Ctx::pk_len: pk_cost < script_size *)
-Lemma ext_pk_cost_refuted_unc :
-  pk_cost (ext_of cx_legacy (MCheck (MPkK 6))) < script_size cx_legacy (MCheck (MPkK 6)).
-Proof. vm_compute. reflexivity. Qed.
+(* since /repo 4c5160f8 the class contains the scripts with uncompressed keys of the harness contexts *)
+Example ext_pk_cost_unc_ok :
+  size_wf as_written cx_legacy (MCheck (MPkK 6)) = true
+  /\ pk_cost (ext_of cx_legacy (MCheck (MPkK 6))) = 67.
+Proof. vm_compute. auto. Qed.
